@@ -407,7 +407,7 @@ def _warm():
 RULE = (
     'F1: fifo_stream over bare Futures completed by a harness resolver thread in a generated permutation of the currently pending ones; '
     'F2: Stream.parmap(thread | coroutine fn) with generated per-value virtual durations; F4: executor=process with real sleeps. Inputs: lists (<=40) of ints/strs/tuples '
-    'with duplicates, failing values, preprocessor (identity/extractor/failing), return_x, return_exceptions, capacity/concurrency 1-6, schedule (default/tape/PCT). '
+    'with duplicates, failing values, preprocessor (identity/extractor/failing), return_x, return_exceptions, capacity/concurrency 1-6, failure types incl. those the library itself catches (TimeoutError, queue.Empty/Full), sources that are immediate or slow (incl. stalls of exactly 1 s = the scale of internal timeouts), schedule (default/sparse/tape/PCT, expiry races and expiry-last modifier). '
     'Oracle: sequential map + call-log multiset. Non-trivial: >=1 inversion between submission and completion order AND n > capacity (queue wrap-around); '
     'distinct by (inputs, config, completion order).'
 )
